@@ -262,6 +262,9 @@ func c12Invariants(tb *Tables) []Outcome {
 			seen[k] = fmt.Sprintf("%q on the %s list", id, l.name)
 		}
 	}
+	if d := tb.FreshTablesDiffer(); d != "" {
+		out = append(out, Outcome{Key: "C12/table-aliasing", Msg: "a caller edited the slices the table functions had returned to it, and the next call returns something else: " + d})
+	}
 	return out
 }
 
